@@ -379,9 +379,11 @@ let ikind_of = function
 let rec gtype_of (x : sx) : M.gtype =
   match x with
   | A "b" -> M.GBool | A "f32" -> M.GF32 | A "f64" -> M.GF64 | A "s" -> M.GStr | A "x" -> M.GBytes
-  | A "a" -> M.GAny | A "bad" -> M.GBad
+  | A "a" -> M.GAny | A "bad" -> M.GBad | A "xo" -> M.GBytes
   | A k -> M.GNum (ikind_of k)
   | L [A "X"; A n] -> M.GByteArr (nat_of_int (int_of_string n))
+  (* [n]Octet / []Octet (Octet a named uint8): the slab routes them by Kind to the bytes machines, the model reads them as [n]byte / []byte *)
+  | L [A "XO"; A n] -> M.GByteArr (nat_of_int (int_of_string n))
   | L [A "sl"; t] -> M.GSlice (gtype_of t)
   | L [A "ar"; A n; t] -> M.GArr (nat_of_int (int_of_string n), gtype_of t)
   | L [A "mp"; k; v] -> M.GMap (gtype_of k, gtype_of v)
@@ -702,7 +704,7 @@ let run_maporder (payload : string) : string =
 let run_untrusted (payload : string) : string =
   let i = String.index payload '|' in
   let head = String.trim (String.sub payload 0 i) and hx = String.trim (String.sub payload (i + 1) (String.length payload - i - 1)) in
-  let fmt = String.sub head 0 1 and mode = String.sub head 2 1 in
+  let fmt = String.sub head 0 1 and mode = String.lowercase_ascii (String.sub head 2 1) in
   let rest = String.sub head 4 (String.length head - 4) in
   let bs = if hx = "-" then [] else bytes_of_hex hx in
   match parse_sx rest with
